@@ -35,7 +35,9 @@ EXPLANATION = (
     "number with plain Display; (R8) where the lowering evaluates a user expression between the device selection "
     "and PrintEnd, the VM keeps the statement's print state per activation (a FUNCTION called by an item may "
     "itself PRINT); (R9 = C01.R5) every PrintState field a per-item operation modifies is written again by reset() or "
-    "print_end(): the format cursor of PRINT USING starts at the beginning of the format in every statement.")
+    "print_end(): the format cursor of PRINT USING starts at the beginning of the format in every statement; (R10) when a "
+    "value is formatted the cursor is first taken modulo the length of the format, on every path to the scanning routines: "
+    "the format is reused cyclically.")
 NOT_DECIDED = [
     "the digits a number is rendered as (Display of f32 / f64 versus QBasic's rendering)",
     "PRINT USING: field scanning, cyclic reuse of the format, rounding (value-level string arithmetic)",
@@ -505,10 +507,20 @@ def r2_lowering(ctx, rule="C16.R2"):
             o = mir.show_origin(pv.of_operand(r["ops"][0]))
             if "file_number" in o and "Some" in o:
                 h_ok = True
+        # ... on every path of the arm: a PRINT # that relies on an earlier statement having set the handle prints to
+        # whatever file the last executed PRINT # chose
+        h_blocks = {b_ for b_ in some_r for s_ in body.blocks[b_]["s"] if s_["k"] == "assign" and s_["r"]["k"] == "agg"
+                    and (s_["r"].get("adt") or "").endswith("::Instruction") and s_["r"].get("variant") == "PrintSetFileHandle"}
+        exits_ = [e for e in body.exits() if not body.is_cleanup(e)]
+        if h_ok and not all(body.every_path_passes(some_t, {e}, h_blocks) for e in exits_ if e in body.reachable(some_t)):
+            h_ok = False
+            why_handle = "PrintSetFileHandle is not emitted on every path of a PRINT # (the statement relies on an earlier one having set the handle)"
+        else:
+            why_handle = "PrintSetFileHandle does not carry the statement's own file number"
         if some_types != ["File"]:
             why = "with a file number the printer type is %s" % some_types
         elif not h_ok:
-            why = "PrintSetFileHandle does not carry the statement's own file number"
+            why = why_handle
         elif none_types != ["LPrint", "Print"]:
             why = "without a file number the printer types are %s (LPRINT and PRINT need one each)" % none_types
         else:
@@ -892,7 +904,30 @@ def r5_column(ctx, rule="C16.R5"):
                     if r["op"] in ("Sub", "SubWithOverflow") and _const_int(r["a"]) is not None:
                         subs.append(r)
         key = "%s:%s:zone-constants" % (rule, ty)
-        if len(rems) != 1 or len(subs) != 1:
+        nmo = [t for _b, t in zb.calls() if (mir.callee_path(t) or "").endswith("::next_multiple_of") and t["args"]
+               and col in mir.show_origin(zpv.of_operand(t["args"][0]))]
+        divs = [s_["r"] for blk_ in zb.blocks if not blk_.get("c") for s_ in blk_["s"] if s_["k"] == "assign" and s_["r"]["k"] == "bin"
+                and s_["r"]["op"] == "Div" and _const_int(s_["r"]["b"]) is not None]
+        if nmo:
+            k_ = _const_int(nmo[0]["args"][1]) if len(nmo[0]["args"]) > 1 else None
+            ctx.violation(rule, key, zone.loc,
+                          "the zone routine pads up to %s.next_multiple_of(%s): that is the column itself when the column already is a "
+                          "multiple of %s, so a comma in column 0, 14, 28 ... writes nothing - the next zone starts 14 columns further "
+                          "(14 - col %% 14 is never 0)" % (col, k_, k_))
+        elif len(divs) == 1 and not rems:
+            # (col / C + 1) * C - col
+            c_ = _const_int(divs[0]["b"])
+            muls = [s_["r"] for blk_ in zb.blocks if not blk_.get("c") for s_ in blk_["s"] if s_["k"] == "assign" and s_["r"]["k"] == "bin"
+                    and s_["r"]["op"] in ("Mul", "MulWithOverflow") and (_const_int(s_["r"]["b"]) is not None or _const_int(s_["r"]["a"]) is not None)]
+            adds = [s_["r"] for blk_ in zb.blocks if not blk_.get("c") for s_ in blk_["s"] if s_["k"] == "assign" and s_["r"]["k"] == "bin"
+                    and s_["r"]["op"] in ("Add", "AddWithOverflow") and 1 in (_const_int(s_["r"]["a"]), _const_int(s_["r"]["b"]))]
+            mc = [x for x in (_const_int(muls[0]["a"]), _const_int(muls[0]["b"])) if x is not None] if len(muls) == 1 else []
+            if len(muls) == 1 and len(adds) == 1 and col in mir.show_origin(zpv.of_operand(divs[0]["a"])):
+                ctx.decide(c_ == 14 and mc == [14], rule, key, zone.loc, "(%s / 14 + 1) * 14 - %s" % (col, col),
+                           "the zone routine computes (%s / %s + 1) * %s - %s: the zone is 14 columns wide" % (col, c_, mc, col))
+            else:
+                ctx.unknown(rule, key, zone.loc, "a zone routine with a division that is not of the form (col / C + 1) * C - col")
+        elif len(rems) != 1 or len(subs) != 1:
             ctx.unknown(rule, key, zone.loc, "the zone routine is not of the form C - col %% C (%d remainders, %d subtractions "
                         "from a constant)" % (len(rems), len(subs)))
         else:
@@ -1181,6 +1216,52 @@ def r8_state_survives_user_code(ctx, rule="C16.R8"):
     ctx.require(rule, 1)
 
 
+def r10_format_is_reused_cyclically(ctx, rule="C16.R10"):
+    """PRINT USING reuses its format cyclically: when a value is formatted, the cursor into the format is first taken
+    modulo the length of the format, so that a value that comes after the last field starts again at the beginning.  In
+    the method of PrintState that hands the cursor to the scanning routines together with the value (a Variant argument),
+    `cursor = cursor % len` lies on every path to the first call that is given the cursor."""
+    prog = ctx.prog
+    a = prog.adt("rusty_basic::interpreter::print::PrintState")
+    usz = [fl["name"] for fl in a["variants"][0]["fields"] if fl["ty"] == "usize"]
+    if len(usz) != 1:
+        ctx.unknown(rule, rule + ":cursor", "-", "PrintState has %d usize fields: which one is the format cursor is not decided" % len(usz))
+        ctx.require(rule, 0, max_unknown=1)
+        return
+    cur = usz[0]
+    n = 0
+    for f in prog.methods_of("PrintState"):
+        if f.kind == "closure":
+            continue
+        body = f.body
+        if not any("Variant" in body.locals[i]["ty"] for i in range(1, f.argc + 1)):
+            continue
+        refs = {st["p"][0] for blk in body.blocks for st in blk["s"] if st["k"] == "assign" and not st["p"][1]
+                and st["r"]["k"] == "ref" and _self_field(st["r"]["p"]) == cur}
+        for _ in range(2):      # reborrows: _b = &mut *_a
+            refs |= {st["p"][0] for blk in body.blocks for st in blk["s"] if st["k"] == "assign" and not st["p"][1]
+                     and st["r"]["k"] == "ref" and st["r"]["p"][1] == ["*"] and st["r"]["p"][0] in refs}
+        users = [b for b, t in body.calls() if any(mir.op_place(x) is not None and mir.op_place(x)[0] in refs and not mir.op_place(x)[1]
+                                                    for x in t["args"])]
+        if not users:
+            continue
+        n += 1
+        mods = set()
+        for b, blk in enumerate(body.blocks):
+            if blk.get("c"):
+                continue
+            for st in blk["s"]:
+                if st["k"] == "assign" and _self_field(st["p"]) == cur and st["r"]["k"] == "bin" and st["r"]["op"] == "Rem" \
+                        and _self_field(mir.op_place(st["r"]["a"])) == cur:
+                    mods.add(b)
+        ok = bool(mods) and all(body.every_path_passes(0, {u}, mods) for u in users)
+        ctx.decide(ok, rule, "%s:%s" % (rule, f.name), f.loc, "%s %%= len before the format is scanned" % cur,
+                   "%s hands the cursor %s to the scanning routines without first taking it modulo the length of the format on "
+                   "every path: a value that comes after the last field of the format does not start again at its beginning"
+                   % (f.name, cur))
+    ctx.require(rule, 1)
+
+
 def run(ctx):
     common.install(ctx)
     devices = r1_device_dispatch(ctx)
@@ -1195,3 +1276,4 @@ def run(ctx):
     # operation modifies is written again when the next statement starts or this one ends (shared with C01.R5)
     from . import c01
     c01.r5_print_state_is_statement_scoped(ctx, "C16.R9")
+    r10_format_is_reused_cyclically(ctx)
